@@ -44,7 +44,7 @@ def run(tier, seed):
                 it["bytes"][7] ^= 4
                 return k + 1
         return 0
-    seeds = [seed * 1000 + i for i in range(2 if quick else 10)]
+    seeds = [seed * 1000 + i for i in range(2 if quick else 30)]
     vlib.trace_rounds(c, "Trace_RtrWire", "rtrwire", seeds, 300 if quick else 3000, mut, xmx="6g")
     c.cov["rule"] = ("cases = every initial state of the reader automaton (entry x type x version x length field x available bytes) and every "
                      "PDU of the layout model; non-trivial = at least a full header available / every PDU; traces = random full-range payload "
